@@ -71,9 +71,9 @@ func fileContent(f FileSpec) []byte {
 			for len(out) < f.Big {
 				out = append(out, pat...)
 			}
-			return out[:f.Big]
+			return append(out[:f.Big], f.Token...)
 		}
-		return []byte(f.Content)
+		return []byte(f.Content + f.Token)
 	case "t":
 		// a tar archive inside the layer (two entries with times from the table)
 		var buf bytes.Buffer
@@ -240,6 +240,18 @@ func mustJSON(v any) []byte {
 	return b
 }
 
+// styledJSON: pretty = indented with a trailing newline (what other tools write).
+func styledJSON(v any, pretty bool) []byte {
+	if !pretty {
+		return mustJSON(v)
+	}
+	b, err := json.MarshalIndent(v, "", "   ")
+	if err != nil {
+		panic(err)
+	}
+	return append(b, '\n')
+}
+
 func pairsMap(p [][2]string) map[string]string {
 	if len(p) == 0 {
 		return nil
@@ -402,7 +414,8 @@ func buildImage(family string, arch string, layers []LayerSpec, hist []HistSpec,
 		man.Annotations = ann
 		mdl.Annots = ann
 	}
-	cb := mustJSON(cfg)
+	pretty := im != nil && im.Pretty
+	cb := styledJSON(cfg, pretty)
 	cd := sha256Dig(cb)
 	blobs[cd] = cb
 	man.Config = jDesc{MediaType: cfgMT, Digest: cd, Size: int64(len(cb))}
@@ -411,7 +424,7 @@ func buildImage(family string, arch string, layers []LayerSpec, hist []HistSpec,
 		mdl.ConfigData = true
 	}
 	mdl.ConfigSize, mdl.ConfigMT, mdl.ManifestMT = int64(len(cb)), cfgMT, man.MediaType
-	body := mustJSON(man)
+	body := styledJSON(man, pretty)
 	mdl.Digest, mdl.Size = sha256Dig(body), int64(len(body))
 	return manifestRec{MT: man.MediaType, Body: body}, mdl
 }
@@ -531,7 +544,7 @@ func build(c Case) *built {
 			ann[k] = v
 		}
 		idx.Annotations = ann
-		body := mustJSON(idx)
+		body := styledJSON(idx, c.IndexPretty)
 		b.Top, b.TopMT, b.TopAnnots = sha256Dig(body), idx.MediaType, ann
 		b.Manifests[b.Top] = manifestRec{MT: idx.MediaType, Body: body}
 		b.IsIndex, b.ChildData = true, c.ChildData
